@@ -427,6 +427,31 @@ def _containers(ns_owner, ns):
             yield ('f', ns_owner, name, val)
 
 
+def snapshot_modules(mods):
+    """-> restorable record of the module- and class-level containers / caches of the given module objects"""
+    items = []
+    for mod in mods:
+        for it in _containers(mod, vars(mod)):
+            items.append(it)
+        for name, cls in list(vars(mod).items()):
+            if isinstance(cls, type) and getattr(cls, '__module__', None) == mod.__name__:
+                for it in _containers(cls, dict(vars(cls))):
+                    items.append(it)
+    return [(k, o, n, v, (type(v)(v) if k == 'c' else None)) for k, o, n, v in items]
+
+
+def restore_modules(items):
+    for kind, owner, name, obj, content in items:
+        if kind == 'f':
+            obj.cache_clear()
+        elif _unchanged(obj, content):
+            continue
+        elif isinstance(obj, list):
+            obj[:] = content
+        else:
+            obj.clear(); obj.update(content)
+
+
 def snapshot_state():
     """remember the content of every module-level / class-level mutable container of the repo's modules as it is right
     after import (call once, before anything was decoded)"""
